@@ -49,33 +49,35 @@ CONSTANTS Configs, OptNames, SecNames, Values, Decos, MaxNodes, MaxDepth,   \* d
           Routes,       \* arrival routes explored: subset of RouteNames
           Cfgs,         \* configuration arguments offered: "top" (process-wide, explicit), "null", "view"
           PrePaths,     \* paths offered to single assign / remove calls
-          EnvLists,     \* environments: sequences of "NAME=value" byte strings
-          Patterns,     \* match patterns (Null0 = library default "mpt_*")
-          EnvSeps,      \* separators (0 = library default '_')
-          ArgLists,     \* argument lists: sequences of byte strings
+          LoadKinds,    \* [how |-> "root" | "prefix", where |-> "file" | "dir" | "both"]
+          TwoFiles,     \* TRUE: a second document may be put aside (folder and file in one load)
+          EnvCalls,     \* [how |-> "array" | "environ", pat |-> pattern (Null0 = library default "mpt_*"),
+                        \*  sep |-> separator (0 = library default '_'), vs |-> sequence of "NAME=value" strings]
+          ArgCalls,     \* [log |-> 0 | 1, items |-> sequence of strings]
           ClearLists,   \* removal lists: sequences of path strings
-          MsgEls,       \* element lists of set messages (sequences of names)
-          MsgVals,      \* values of set messages
-          MsgSplits,    \* where the message is cut into base part and continuation
-          GetLists,     \* path lists of query messages (sequences of paths)
-          GetSeps,      \* argument separators of query messages (0 | 32)
+          MsgSets,      \* [hdr |-> 0 | 1, split |-> cut into base part and continuation, els |-> names, val |-> value]
+          MsgGets,      \* [sep |-> argument separator 0 | 32, split |-> .., ps |-> sequence of paths]
           NodeBases,    \* base paths whose node is parsed into
           FputSeps,     \* separator strings of mpt_path_fputs (Null0 = default "/")
-          MaxOps        \* calls per behaviour (exhaustive runs)
+          MaxOps,       \* calls per behaviour (exhaustive runs)
+          MaxArr,       \* calls per behaviour other than single assignments / removals
+          SinglesFirst, \* TRUE: single calls only before the first other call (exhaustive runs)
+          Observe       \* TRUE: the expected answers of all universe queries are part of obs (export, traces)
 
 VARIABLES dcfg, dtext, dstack, dnn, doc,   \* draft document (ConfText)
           doc2,                            \* a finished document put aside (second file)
-          nops,                            \* store calls so far
+          nops, narr,                      \* store calls so far; those other than single ones
           pst                              \* path object: the string it was set from while untouched since
 draft == <<dcfg, dtext, dstack, dnn, doc>>
-xvars == <<vars, draft, doc2, nops, pst>>
+xvars == <<vars, draft, doc2, nops, narr, pst>>
 
 CT == INSTANCE ConfText WITH cfg <- dcfg, text <- dtext, stack <- dstack, nn <- dnn, obs <- doc
 
 RouteNames == {"single", "load", "environ", "args", "clear", "msgset", "msgget", "nodeparse", "parsenode"}
 Null0 == <<0>>                       \* a NULL string argument
 NoneTxt == <<-1>>                    \* no such file
-Vague == <<-2>>
+Vague == <<-2>>                      \* the empty text or no value
+Unknown == <<-3>>                    \* the statement does not say (see NodeCall)
 Mpt == <<109, 112, 116>>             \* "mpt": target sub-tree of mpt_config_load without configuration
 NoPst == [s |-> <<>>, asg |-> -1]
 
@@ -129,11 +131,13 @@ RECURSIVE SAssignAll(_, _)
 SAssignAll(f, as) == IF as = <<>> THEN f ELSE SAssignAll(SAssign(f, as[1].p, as[1].v), Rest(as))
 RECURSIVE SRemoveAll(_, _)
 SRemoveAll(f, ps) == IF ps = <<>> THEN f ELSE SRemoveAll(SRemove(f, ps[1]), Rest(ps))
-RECURSIVE ToSlots(_)
-ToSlots(nodes) ==
+\* the forest as node lists; the value of an element is looked up in the entry list es
+ValAt(es, p) == es[CHOOSE i \in DOMAIN es : es[i].p = p].v
+RECURSIVE ToSlotsAt(_, _, _)
+ToSlotsAt(nodes, pre, es) ==
   [i \in DOMAIN nodes |-> [u |-> TRUE, n |-> Bytes(nodes[i].n),
-                           v |-> IF nodes[i].c # <<>> THEN NoVal ELSE TextVal(nodes[i].v),
-                           k |-> ToSlots(nodes[i].c)]]
+                           v |-> ValAt(es, Append(pre, Bytes(nodes[i].n))),
+                           k |-> ToSlotsAt(nodes[i].c, Append(pre, Bytes(nodes[i].n)), es)]]
 \* make_global: the elements of the base path exist afterwards
 SEnsure(f, b) == IF b \in SPaths(f) THEN f ELSE SAssign(f, b, NoVal)
 RECURSIVE SKids(_, _)
@@ -184,10 +188,12 @@ CfgOK(cfg) == cfg \in Cfgs /\ (cfg = "view" => Base # <<>>)
 
 Store(a, arg, t2, s2, eff) ==
   /\ tree' = t2 /\ st' = s2
-  /\ KeepDraft /\ KeepPathX /\ nops' = nops + 1
+  /\ nops < MaxOps /\ narr < MaxArr
+  /\ KeepDraft /\ KeepPathX /\ nops' = nops + 1 /\ narr' = narr + 1
   /\ obs' = [a |-> a, arg |-> arg, eff |-> eff,
-             exp |-> [ret |-> "any", anyret |-> TRUE, nodes |-> Count(s2), all |-> AllOf(t2), rel |-> RelOf(t2),
-                      all2 |-> [i \in 1..Len(Uni) |-> SGet(s2, Uni[i])]]]
+             exp |-> [ret |-> "any", anyret |-> TRUE, nodes |-> Count(s2),
+                      all |-> IF Observe THEN AllOf(t2) ELSE <<>>, rel |-> IF Observe THEN RelOf(t2) ELSE <<>>,
+                      all2 |-> IF Observe THEN [i \in 1..Len(Uni) |-> SGet(s2, Uni[i])] ELSE <<>>]]
 
 (* documents are written before the program runs *)
 Drafting == nops = 0 /\ Routes \cap {"load", "nodeparse", "parsenode"} # {}
@@ -197,23 +203,25 @@ DraftItem ==
           CT!AddOption(name, v, q, d.g, d.b1, d.b2, d.b3, IF CT!F.oe # 0 THEN "end" ELSE d.term)
      \/ \E name \in SecNames, d \in Decos : CT!OpenSection(name, d.g, d.b1, d.b2, d.g2)
      \/ \E d \in Decos : CT!CloseSection(d.g)
-  /\ UNCHANGED <<vars, doc2, nops, pst>>
+  /\ UNCHANGED <<vars, doc2, nops, narr, pst>>
 EmptyDoc == [a |-> "none", arg |-> [x |-> 0], exp |-> [ret |-> "ok", tree |-> <<>>, links |-> 0, ev |-> <<>>]]
 SaveDoc ==
-  /\ Drafting /\ doc2 = EmptyDoc /\ dnn >= 1 /\ "load" \in Routes
+  /\ Drafting /\ doc2 = EmptyDoc /\ "load" \in Routes /\ TwoFiles
+  \* (the second file is kept small: one option at the top level, written without decoration)
+  /\ dnn = 1 /\ Len(dstack) = 1 /\ \A i \in DOMAIN DocText(doc) : DocText(doc)[i] \notin {9, 32, 35}
   /\ doc2' = doc
   /\ dtext' = <<>> /\ dstack' = << [n |-> <<>>, k |-> <<>>] >> /\ dnn' = 0 /\ doc' = EmptyDoc
-  /\ UNCHANGED <<vars, dcfg, nops, pst>>
+  /\ UNCHANGED <<vars, dcfg, nops, narr, pst>>
 
 ---------------------------------------------------------------------------
 (* single calls of the base specification, within the frame *)
 Single ==
-  /\ "single" \in Routes
+  /\ "single" \in Routes /\ nops < MaxOps /\ (SinglesFirst => narr = 0)
   /\ \E via \in Vias : \E p \in PrePaths :
         /\ via = "view" => p \in RelSet
         /\ \/ \E v \in Vals : Assign(via, p, v, Sep, 0)
            \/ Remove(via, p, Sep)
-  /\ KeepDraft /\ pst' = pst /\ nops' = nops + 1
+  /\ KeepDraft /\ pst' = pst /\ nops' = nops + 1 /\ narr' = narr
 
 (* mpt_config_load *)
 DefaultFormat == dcfg.fmt = CT!Null /\ dcfg.acc = CT!Null
@@ -265,19 +273,20 @@ MsgSet(cfg, hdr, split, els, val) ==
 
 (* mpt_config_reply: the values of the paths named by the message, or a failure answer *)
 MsgGet(cfg, sep, split, ps) ==
-  /\ "msgget" \in Routes /\ CfgOK(cfg) /\ ps # <<>>
+  /\ "msgget" \in Routes /\ CfgOK(cfg) /\ ps # <<>> /\ nops < MaxOps /\ narr < MaxArr
   /\ LET b    == BaseOf(cfg, "msgget")
          vals == [i \in DOMAIN ps |-> TGet(tree, b \o ps[i])]
          all  == \A i \in DOMAIN ps : vals[i] # NoVal
-     IN /\ \A i \in DOMAIN ps : vals[i] # Vague /\ Join(ps[i], 46) # <<>>
+     IN /\ \A i \in DOMAIN ps : vals[i] \notin {Vague, Unknown} /\ Join(ps[i], 46) # <<>>
         /\ all \/ vals[1] = NoVal                  \* (an absent path behind present ones: statement silent)
-        /\ UNCHANGED <<tree, st>> /\ KeepDraft /\ KeepPathX /\ nops' = nops + 1
+        /\ UNCHANGED <<tree, st>> /\ KeepDraft /\ KeepPathX /\ nops' = nops + 1 /\ narr' = narr + 1
         /\ obs' = [a |-> "msgget", eff |-> [k |-> "get"],
                    arg |-> [cfg |-> cfg, sep |-> sep, split |-> split, paths |-> [i \in DOMAIN ps |-> Join(ps[i], 46)]],
                    exp |-> [ret |-> IF all THEN "values" ELSE "absent", anyret |-> FALSE,
                             vals |-> IF all THEN vals ELSE <<>>,
-                            nodes |-> Count(st), all |-> AllOf(tree), rel |-> RelOf(tree),
-                            all2 |-> [i \in 1..Len(Uni) |-> SGet(st, Uni[i])]]]
+                            nodes |-> Count(st), all |-> IF Observe THEN AllOf(tree) ELSE <<>>,
+                            rel |-> IF Observe THEN RelOf(tree) ELSE <<>>,
+                            all2 |-> IF Observe THEN [i \in 1..Len(Uni) |-> SGet(st, Uni[i])] ELSE <<>>]]
 
 (* mpt_node_parse (replace) / mpt_parse_node (merge) on the node of the base path *)
 LastOf(p) == p[Len(p)]
@@ -290,15 +299,16 @@ NamesAccepted(d, acc) ==
 FmtArg(x) == IF x = CT!Null THEN Null0 ELSE x
 NodeCall(kind, base) ==
   /\ kind \in Routes /\ base # <<>>
-  /\ LET es == Entries(DocTree(doc), <<>>)
+  /\ LET es0 == Entries(DocTree(doc), <<>>)
          s1 == SEnsure(st, base)
-         ns == ToSlots(DocTree(doc))
+         \* a section of the text merged over an element that has a value: the documented rule
+         \* (the element of the text supersedes) drops the value, "assignments to one path never
+         \* alter another" would keep it -- the statement does not decide, the value is Unknown
+         Sup(p) == kind = "parsenode" /\ TGet(tree, base \o p) # NoVal
+         es == [i \in DOMAIN es0 |-> IF es0[i].v = NoVal /\ Sup(es0[i].p) THEN [es0[i] EXCEPT !.v = Unknown] ELSE es0[i]]
+         ns == ToSlotsAt(DocTree(doc), <<>>, es)
      IN /\ Distinct(es)                                   \* (a name written twice: statement silent)
         /\ kind = "nodeparse" /\ dcfg.acc = CT!Null => NamesAccepted(doc, NsAccept)
-        \* (a section of the text over an element that has a value: the documented rule drops the
-        \* value, the statement would keep it -- not generated)
-        /\ kind = "parsenode" =>
-             \A i \in DOMAIN es : es[i].v = NoVal => TGet(tree, base \o es[i].p) = NoVal
         /\ Store(kind, [base |-> Join(base, Sep), bsep |-> Sep, fmt |-> FmtArg(dcfg.fmt), acc |-> FmtArg(dcfg.acc),
                         text |-> DocText(doc)],
                  IF kind = "nodeparse" THEN TReplace(tree, base, es) ELSE TMerge(tree, base, es),
@@ -308,19 +318,19 @@ NodeCall(kind, base) ==
 
 ---------------------------------------------------------------------------
 (* path object: the base actions within the frame, printing and the data behind the path *)
-PathFrame == KeepDraft /\ UNCHANGED <<nops>>
+PathFrame == KeepDraft /\ UNCHANGED <<nops, narr>>
 XPSet(s, sep, asg) == PSet(s, sep, asg) /\ PathFrame /\ pst' = [s |-> s, asg |-> asg]
 XPOther == (PNext \/ PLast \/ PDel \/ \E e \in Elems : PAddElem(e)) /\ PathFrame /\ pst' = NoPst
 \* mpt_path_fputs: every element preceded by the separator string
 PFputs(seps) ==
-  /\ UNCHANGED <<tree, st, pel, po, pst, nops>> /\ KeepDraft
+  /\ UNCHANGED <<tree, st, pel, po, pst, nops, narr>> /\ KeepDraft
   /\ LET S == IF seps = Null0 THEN <<47>> ELSE seps IN
      obs' = [a |-> "pfputs", arg |-> [seps |-> seps],
              exp |-> [ret |-> Len(pel), anyret |-> TRUE, text |-> Flat([i \in DOMAIN pel |-> S \o pel[i]])]]
 \* mpt_path_data right after mpt_path_set: what follows the end character
 PData ==
   /\ pst # NoPst
-  /\ UNCHANGED <<tree, st, pel, po, pst, nops>> /\ KeepDraft
+  /\ UNCHANGED <<tree, st, pel, po, pst, nops, narr>> /\ KeepDraft
   /\ obs' = [a |-> "pdata", arg |-> [x |-> 0],
              exp |-> [ret |-> 0, anyret |-> TRUE,
                       post |-> IF pst.asg # 0 /\ HasCh(pst.s, pst.asg) THEN After(pst.s, pst.asg) ELSE <<>>]]
@@ -329,20 +339,17 @@ PData ==
 InitX ==
   /\ Init
   /\ CT!Init /\ doc2 = EmptyDoc
-  /\ nops = 0 /\ pst = NoPst
+  /\ nops = 0 /\ narr = 0 /\ pst = NoPst
 
-Hows == {"root", "prefix"}
 NextStore ==
   \/ DraftItem \/ SaveDoc
   \/ Single
-  \/ \E cfg \in Cfgs, how \in Hows, where \in {"file", "dir", "both"} :
-        (how = "prefix" => cfg = "null" /\ where # "dir") /\ Load(cfg, how, where)
-  \/ \E cfg \in Cfgs, how \in {"array", "environ"}, pat \in Patterns, sep \in EnvSeps, vs \in EnvLists :
-        Environ(cfg, how, pat, sep, vs)
-  \/ \E cfg \in Cfgs, lg \in {0, 1}, items \in ArgLists : Args(cfg, lg, items)
+  \/ \E cfg \in Cfgs, k \in LoadKinds : Load(cfg, k.how, k.where)
+  \/ \E cfg \in Cfgs, c \in EnvCalls : Environ(cfg, c.how, c.pat, c.sep, c.vs)
+  \/ \E cfg \in Cfgs, c \in ArgCalls : Args(cfg, c.log, c.items)
   \/ \E cfg \in Cfgs, items \in ClearLists : Clear(cfg, items)
-  \/ \E cfg \in Cfgs, hdr \in {0, 1}, split \in MsgSplits, els \in MsgEls, val \in MsgVals : MsgSet(cfg, hdr, split, els, val)
-  \/ \E cfg \in Cfgs, sep \in GetSeps, split \in MsgSplits, ps \in GetLists : MsgGet(cfg, sep, split, ps)
+  \/ \E cfg \in Cfgs, c \in MsgSets : MsgSet(cfg, c.hdr, c.split, c.els, c.val)
+  \/ \E cfg \in Cfgs, c \in MsgGets : MsgGet(cfg, c.sep, c.split, c.ps)
   \/ \E kind \in {"nodeparse", "parsenode"}, base \in NodeBases : NodeCall(kind, base)
 NextPathX ==
   \/ \E s \in Strs, sep \in Seps, asg \in Asgs : (po.buf = <<>> \/ Len(s) <= 1) /\ XPSet(s, sep, asg)
